@@ -73,7 +73,7 @@ def run_one(m, args):
         props = m["props"] if "props" in m else [m["prop"]]
         res = []
         for prop in props:
-            r = subprocess.run([os.path.join(VERIF, "bin", "yverif"), "check", prop, args.tier, "-repo", root, "-verif", vdir],
+            r = subprocess.run([os.environ.get("YVERIF_BIN", os.path.join(VERIF, "bin", "yverif")), "check", prop, args.tier, "-repo", root, "-verif", vdir],
                                env=ENV, capture_output=True, text=True)
             res.append((prop, r.returncode, r.stdout))
         if m["kind"] == "mutant":
